@@ -10,6 +10,9 @@
 //          pb     = probability (per mille) that the builder of a lazy emit PANICS on the writer goroutine
 //          storm  = every connection after the planned ones dies once nodeinfo + rand(0..bytes) bytes were accepted
 //                   (reconnect storm); rmin = ReconnectMin = ReconnectMax in ns
+//          nb     = probability (per mille) that the builder of a lazy emit RETURNS NIL (an encoder that "failed"): the
+//                   unchanged client sends a header-only frame (follow-up: parent seq only); such a frame has no tag, so
+//                   the call is identified by a discriminator used only once (plain 100+12e+k, follow-up 200+7e+k)
 //          mix=fu = emitters alternate Emit / follow-up of the id just returned, without pausing on InvalidID
 //          plan   = ok | df (dial fails) | w<bytes> (write error once <bytes> bytes were accepted) | st (peer stops
 //                   reading after the node information until "gate") | st+w<bytes>
@@ -50,6 +53,11 @@ import (
 const (
 	discPlain  = 10
 	discFollow = 11
+
+	// nil-payload lazy emits: one discriminator per call, so the header-only frame identifies its emit call
+	discNilPlain  = 100 // + 12*emitter + k, k < 12
+	discNilFollow = 200 // + 7*emitter + k,  k < 7
+	nilEmitters   = 8
 
 	emitBound     = 4 * time.Second  // an Emit slower than this counts as a blocked emitter
 	stallWatchdog = 6 * time.Second  // a stalled peer resumes by itself after this (so nothing can hang)
@@ -182,6 +190,7 @@ type scenario struct {
 	ctl      []ctlAction
 	pad      int
 	panicPM  int
+	nilPM    int
 	storm    int // -1 = off
 	rminNs   int
 	mixFu    bool
@@ -240,6 +249,8 @@ func parseScenario(input string) scenario {
 			sc.pad = h.I(v)
 		case "pb":
 			sc.panicPM = h.I(v)
+		case "nb":
+			sc.nilPM = h.I(v)
 		case "storm":
 			sc.storm = h.I(v)
 		case "rmin":
@@ -392,6 +403,8 @@ func runScenario(sc scenario) string {
 	defer watchdog.Stop()
 
 	recs := make([][]emitRec, sc.emitters)
+	nilPlain := make([][]uint32, sc.emitters) // per emitter: tags of its nil-payload EmitLazy calls, in order
+	nilFollow := make([][]uint32, sc.emitters)
 	maxLat := make([]time.Duration, sc.emitters)
 	seeds := make([]*h.Rng, sc.emitters)
 	for e := range seeds {
@@ -433,12 +446,24 @@ func runScenario(sc scenario) string {
 						return []byte{short[len(pay)]}
 					}
 				}
+				dPlain, dFollow := uint8(discPlain), uint8(discFollow)
+				if sc.nilPM > 0 && e < nilEmitters && r.Intn(1000) < sc.nilPM {
+					if op >= 55 && op < 70 && len(nilPlain[e]) < 12 {
+						dPlain = uint8(discNilPlain + 12*e + len(nilPlain[e]))
+						nilPlain[e] = append(nilPlain[e], tag)
+						builder = func() []byte { return nil }
+					} else if op >= 90 && len(nilFollow[e]) < 7 {
+						dFollow = uint8(discNilFollow + 7*e + len(nilFollow[e]))
+						nilFollow[e] = append(nilFollow[e], tag)
+						builder = func() []byte { return nil }
+					}
+				}
 				t0 := time.Now()
 				switch {
 				case op < 55:
 					rec.id = cli.Emit(discPlain, pay)
 				case op < 70:
-					rec.id = cli.EmitLazy(discPlain, builder)
+					rec.id = cli.EmitLazy(dPlain, builder)
 				default:
 					parent := last
 					if !sc.mixFu {
@@ -455,7 +480,7 @@ func runScenario(sc scenario) string {
 					if op < 90 {
 						rec.id = cli.EmitFollowup(discFollow, parent, pay)
 					} else {
-						rec.id = cli.EmitFollowupLazy(discFollow, parent, builder)
+						rec.id = cli.EmitFollowupLazy(dFollow, parent, builder)
 					}
 				}
 				if d := time.Since(t0); d > maxLat[e] {
@@ -591,7 +616,7 @@ func runScenario(sc scenario) string {
 					continue
 				}
 			}
-			tok := decodeEvent(body, sc.pad)
+			tok := decodeEvent(body, sc.pad, nilPlain, nilFollow)
 			switch tok[0] {
 			case 'e':
 				nEv++
@@ -631,7 +656,7 @@ func runScenario(sc scenario) string {
 }
 
 // decodeEvent parses one event frame body with the package's own decoder.
-func decodeEvent(body []byte, pad int) string {
+func decodeEvent(body []byte, pad int, nilPlain, nilFollow [][]uint32) string {
 	padOK := func(d *telemetry.Decoder) bool {
 		p, err := d.ReadBytesN(pad)
 		if err != nil || !d.Done() {
@@ -651,6 +676,21 @@ func decodeEvent(body []byte, pad int) string {
 	disc, err := d.ReadU8()
 	if err != nil {
 		return "x"
+	}
+	if disc >= discNilPlain && int(disc) < discNilPlain+12*nilEmitters { // header-only frame of a nil-payload EmitLazy
+		e, k := int(disc-discNilPlain)/12, int(disc-discNilPlain)%12
+		if !d.Done() || e >= len(nilPlain) || k >= len(nilPlain[e]) {
+			return "x"
+		}
+		return "e" + strconv.FormatUint(uint64(nilPlain[e][k]), 10)
+	}
+	if disc >= discNilFollow && int(disc) < discNilFollow+7*nilEmitters { // parent seq only
+		e, k := int(disc-discNilFollow)/7, int(disc-discNilFollow)%7
+		ps, err := d.ReadU64()
+		if err != nil || !d.Done() || e >= len(nilFollow) || k >= len(nilFollow[e]) {
+			return "x"
+		}
+		return "f" + strconv.FormatUint(uint64(nilFollow[e][k]), 10) + "." + strconv.FormatUint(ps, 10)
 	}
 	switch disc {
 	case telemetry.VerifDiscDropped:
@@ -783,6 +823,10 @@ func gen(rng *h.Rng, tier string, emit func(string)) {
 		if rng.Intn(4) == 0 { // some lazy builders panic on the writer goroutine
 			extra += fmt.Sprintf(" pb=%d", pick([]int{10, 30, 100, 300}))
 			st.Inc("panicking-builders")
+		}
+		if rng.Intn(4) == 0 { // some lazy builders return nil: header-only frames
+			extra += fmt.Sprintf(" nb=%d", pick([]int{30, 100, 300, 600}))
+			st.Inc("nil-payload-builders")
 		}
 		if rng.Intn(5) == 0 {
 			extra += fmt.Sprintf(" pad=%d", pick([]int{1, 16, 300, 2048}))
